@@ -98,6 +98,7 @@ type C13Input struct {
 	Post     []int `json:"post"`
 	Load     int   `json:"load"`
 	Serial   bool  `json:"serial,omitempty"` // measured alone: goroutine delta
+	Detach   bool  `json:"detach,omitempty"` // the state handlers are bound (the handler loop starts), then all detached before the disposal
 	// Start: the schema has Start (so Dispose takes its grace step), Start is
 	// active and, with Handlers, StartEnd is bound (the grace Remove1(Start)
 	// then needs the handler loop)
@@ -339,8 +340,11 @@ func c13New(in *C13Input, obs *C13Obs, id string) (*c13Mach, []*atomic.Int32) {
 		if in.Start {
 			fin["StartEnd"] = func(e *am.Event) {}
 		}
-		_, err := m.HandlersBindMaps(nil, fin)
+		id, err := m.HandlersBindMaps(nil, fin)
 		must(err)
+		if in.Detach {
+			must(m.HandlersDetach(id))
+		}
 	}
 	m.Add1("B", nil)
 	if in.Start {
@@ -630,6 +634,21 @@ func c13Exec(in *C13Input) (obs *C13Obs) {
 	for i, c := range counts {
 		obs.HCounts[i] = int(c.Load())
 	}
+	if in.Serial && obs.Disposed && in.Mode != 4 {
+		// the disposal has completed and the parent context is still alive:
+		// the machine's own goroutines (handler loop included) must be gone
+		d := 0
+		for i := 0; i < 15; i++ {
+			time.Sleep(100 * time.Millisecond)
+			d = runtime.NumGoroutine() - gorBefore
+			if d <= 0 {
+				break
+			}
+		}
+		if d > 0 {
+			obs.Gor = d
+		}
+	}
 	if in.Serial {
 		x.cancel()
 		d := 0
@@ -640,7 +659,7 @@ func c13Exec(in *C13Input) (obs *C13Obs) {
 				break
 			}
 		}
-		if d > 0 {
+		if d > 0 && obs.Gor == 0 {
 			obs.Gor = d
 		}
 	}
@@ -952,6 +971,12 @@ func runC13(c *Ctx) error {
 				in2 := *in
 				in2.Start = true
 				items = append(items, &item{kind: "serial-start", in: &in2})
+			}
+			if mode == 1 || mode == 2 || mode == 7 {
+				// handlers bound once, all detached again: the handler loop is still there
+				in4 := *in
+				in4.Handlers, in4.Detach = true, true
+				items = append(items, &item{kind: "serial-detached", in: &in4})
 			}
 			if mode == 4 {
 				in3 := *in
